@@ -124,7 +124,7 @@ func checkSeed(c seedCase) (h.Info, error) {
 	}
 	got, err := bip39.MnemonicToSeed(append(bip39.Mnemonic{}, c.Words...), pass)
 	if werr != nil {
-		if err == nil || got != nil {
+		if err == nil || len(got) != 0 { // "an error and no seed": nil or empty is not prescribed
 			return info, fmt.Errorf("MnemonicToSeed(%q, %+q): invalid mnemonic (%v) must give an error and no seed, got %x, %v", c.Words, pass, werr, got, err)
 		}
 		return info, nil
@@ -287,7 +287,7 @@ func TestSeedInvalidMnemonic(t *testing.T) {
 				}
 				return info, fmt.Errorf("MnemonicToSeed(%q) [%s]: one word is spelled with equivalent but different code points; the call returned the seed %x, which is not the seed of the normalised sentence (and the words as given are not list words)", c.Words, c.Lang, got)
 			}
-			if err == nil || got != nil {
+			if err == nil || len(got) != 0 { // "an error and no seed": nil or empty is not prescribed
 				return info, fmt.Errorf("MnemonicToSeed(%q) [%s, mutation %s]: the mnemonic is invalid (%v) but a seed %x was returned (err=%v)", c.Words, c.Lang, c.Mut, werr, got, err)
 			}
 			return info, nil
